@@ -144,16 +144,22 @@ CLAIMED = {
         technique="Coq proof (insertion sort over a strict total order is permutation-invariant) + repetition sweep over hash seeds, environments and in-process histories",
         design="3 C18"),
     "C12": dict(
-        text="Proof (container structure; time arithmetic by search): Coq theorems over a model of dpkt_dsb.Reader and an independent serialiser of the pcapng format: "
+        text="Proof: Coq theorems over a model of dpkt_dsb.Reader and an independent serialiser of the pcapng format: "
              "C12_read_back (any capture -- frames as Enhanced or obsolete Packet Blocks, secrets blocks, arbitrary other blocks before the interface description, between the "
              "packets and at the end -- written in either byte order is read back as exactly its frames with their tick counts and its secrets, in order), C12_byte_order "
              "(little- and big-endian files of one capture give the same items), C12_default_resolution / C12_resolution (no option = microseconds; if_tsresol v = 10^-v "
-             "resp. 2^-(v-128), in both byte orders). Closed under the global context. NOT modelled: the float conversion ticks -> seconds -> microseconds and dpkt's legacy pcap "
-             "reader; the check exports the same packets under seven resolutions, an offset, extra blocks, Packet Blocks, both byte orders and four legacy variants and "
-             "requires byte-identical exports.",
+             "resp. 2^-(v-128), in both byte orders): closed under the global context. Time: C12_time_any_resolution, C12_time_pow10, C12_time_coarse over Model/TimeConv.v "
+             "(ticks -> offset + ticks / divisor in binary64 -> intround(ts * 1e6), the float operations being Flocq's executable ones): the same instant, a whole number of "
+             "microseconds below 2^51 us, as ticks of ANY two resolutions without if_tsoffset is exported as the same microsecond count; these three depend on the standard "
+             "library's real-number and classical axioms (named in DESIGN.md I.5) through Flocq. NOT covered by a theorem: if_tsoffset and instants that are not whole "
+             "microseconds (model against implementation on any ticks / resolution / offset), dpkt's legacy pcap reader; the check exports the same packets under seven "
+             "resolutions, an offset, extra blocks, Packet Blocks, both byte orders and four legacy variants, with capture clocks before and after 2038, and requires "
+             "byte-identical exports.",
         note="Trusted: Coq kernel; Spec/PcapngSpec.v as a transcription of the pcapng draft; the reader model tied to dpkt_dsb.Reader by correspondence on every generated file "
-             "(ticks, divisor, offset, frames, secrets); well-formed containers only.",
-        technique="Coq proof (block framing round trip via slice algebra, both byte orders) + container-variant sweep with byte-identical exports",
+             "(ticks, divisor, offset, frames, secrets), the time model to reader + dpkt writer on whole-microsecond instants of four eras x 14 resolutions and on "
+             "unstructured ticks/resolution/offset; Flocq 's compiled library; axioms: ClassicalDedekindReals.sig_forall_dec, ClassicalDedekindReals.sig_not_dec, "
+             "Classical_Prop.classic, FunctionalExtensionality.functional_extensionality_dep (time theorems only); well-formed containers only.",
+        technique="Coq proof (block framing round trip via slice algebra, both byte orders; binary64 rounding error analysis with Flocq) + container-variant sweep with byte-identical exports",
         design="3 C12"),
     "C05": dict(
         text="Proof (partial): Coq theorems over the model of Session.handle_packet / extract_*_buf / get_tls_records: C05_segmentation_and_duplicates (per direction: ANY "
@@ -200,9 +206,11 @@ CLAIMED = {
         text="Proof: Coq theorems C07_provenance (a record's metadata is exactly the set of buffered packets whose byte range intersects the record's), C07_times_and_direction "
              "(handshake stamped with the first carrier of the first exported record; every segment stamped with a carrier of its own record and flowing in the record's "
              "direction), C07_addressing (every frame goes from the sender's MAC/IP/port to the receiver's, IP version of the flow), C07_roles (roles fixed by the flow's first "
-             "packet); QUIC times and directions are C02_one_output_per_input_datagram. Closed under the global context. The check compares every exported frame of reference "
+             "packet); QUIC times and directions are C02_one_output_per_input_datagram: closed under the global context. C07_microseconds (microsecond resolution: a capture "
+             "time of m microseconds, 0 <= m < 2^51, read as the binary64 m / 10^6 and written as intround(ts * 1e6) is m again; Flocq, standard-library real-number and classical "
+             "axioms named in DESIGN.md I.5; other resolutions: C12_time_any_resolution). The check compares every exported frame of reference "
              "captures with the endpoints and the exact overlap set of its record.",
-        note="Trusted: Coq kernel; models tied by byte-exact correspondence; timestamps are the reader's floats (microsecond value and float identity computed by the harness).",
+        note="Trusted: Coq kernel; models tied by byte-exact correspondence; timestamps are the reader's floats (microsecond value and float identity computed by the harness; the conversion itself is Model/TimeConv.v, tied by C12's check); axioms of C07_microseconds only: ClassicalDedekindReals.sig_forall_dec, ClassicalDedekindReals.sig_not_dec, Classical_Prop.classic, FunctionalExtensionality.functional_extensionality_dep.",
         technique="Coq proof (overlap characterisation, builder invariant) + per-frame provenance oracle on reference captures",
         design="3 C07"),
     "C13": dict(
